@@ -10,13 +10,22 @@ SPEC = {
             "every interleaving for 1-3 threads x ranges 0..4 x every truth assignment x block sizes (configs marked "
             "complete/truncated); PCT/uniform random schedules sample 2-8 threads x ranges <= 64. Offline checker over the "
             "callback event log: exactly-once, in-range, thread_num < num_threads, result in true-set, workers finished at "
-            "return. distinct_nontrivial = distinct (function, int type, threads, range, block, hit-count, complete?) "
+            "return. The same laws are checked for plain calls (progress argument omitted: the default stderr progress callback "
+            "runs on the calling thread between polls) under a scripted clock whose elapsed / estimated-remaining times sweep every "
+            "format range of format_duration, with start 0 / positive / negative-crossing-zero and huge ranges with an early hit. "
+            "distinct_nontrivial = distinct (function, int type, threads, range, block, hit-count, complete?) "
             "configuration classes; counters report executions and distinct interleavings (schedule hashes).",
     "level_text": "Every interleaving of the shim's scheduling points (one per atomic operation, sequentially consistent, one "
                   "thread at a time) is enumerated for the tiny configurations listed in exhaustive_note; larger ones are "
                   "sampled; weak-memory behaviour is only exercised by the free-running TSan stress stage.",
     "stages": [
         {"name": "c16", "variant": "asan", "shards": (16, 16), "link_lib": True, "timeout": (1500, 21600)},
+        # plain calls (progress argument omitted -> parallel_range_default_progress_fn) under modelled time; start_value == 0
+        # and start_value != 0 are separate stages so that a crash in one family cannot hide the other's observations
+        {"name": "c16", "variant": "asan", "shards": (8, 16), "link_lib": True, "args": ["only=defprog0"], "tag": "c16-defprog0",
+         "timeout": (1500, 21600)},
+        {"name": "c16", "variant": "asan", "shards": (8, 16), "link_lib": True, "args": ["only=defprogN"], "tag": "c16-defprogN",
+         "timeout": (1500, 21600)},
         {"name": "c16_tsan", "variant": "tsan", "shards": (8, 16), "tag": "c16-tsan", "class_prefix": "tsan:",
          "timeout": (1500, 21600)},
     ],
@@ -27,7 +36,22 @@ SPEC = {
                          "tsan:stress:range:*", "tsan:stress:blocks:*", "tsan:stress:multi:*", "tsan:stress:narrow:u16:*:over-half-span",
                          "tsan:stress:narrow:u8:*", "tsan:stress:narrow:i16:*", "tsan:stress:*:tdefault:*",
                          "tsan:stress:range:*:over-64K", "dfs:blocks:u64:t0:n0:*", "dfs:multi:u64:t0:*",
-                         "tsan:stress:huge-blocks:*", "tsan:stress:2^32-range:default-threads"],
+                         "tsan:stress:huge-blocks:*", "tsan:stress:2^32-range:default-threads",
+                         # the default progress callback really ran, for every function, with zero / positive / negative
+                         # start values, and printed durations of every format range with both seconds-field widths
+                         "defprog:printed:range:u64:start0", "defprog:printed:blocks:*:start0", "defprog:printed:multi:*:start0",
+                         "defprog:printed:range:*:startpos", "defprog:printed:blocks:*:startpos", "defprog:printed:multi:*:startpos",
+                         "defprog:printed:range:i64:startneg", "defprog:printed:*:i32:startneg",
+                         "defprog:elapsed:subsec", "defprog:elapsed:sec:s1", "defprog:elapsed:sec:s2", "defprog:elapsed:min:s1",
+                         "defprog:elapsed:min:s2", "defprog:elapsed:hours:s1", "defprog:elapsed:hours:s2", "defprog:elapsed:days:s1",
+                         "defprog:elapsed:days:s2", "defprog:elapsed:huge:*",
+                         "defprog:remaining:none", "defprog:remaining:subsec", "defprog:remaining:sec:s1", "defprog:remaining:sec:s2",
+                         "defprog:remaining:min:s1", "defprog:remaining:min:s2", "defprog:remaining:hours:s1",
+                         "defprog:remaining:hours:s2", "defprog:remaining:days:s1", "defprog:remaining:days:s2",
+                         "defprog:remaining:huge:*",
+                         "dfs:range:u64:t2:defprog:start0:*", "dfs:range:u64:t2:defprog:startpos:*",
+                         "dfs:range:i64:t2:defprog:startneg:*", "dfs:*:u64:t0:defprog:*",
+                         "sampled-defprog:range:huge-range:*", "sampled-defprog:blocks:huge-range:*", "sampled-defprog:*:all-defaults"],
     "exhaustive": {"quick": False, "thorough": False},
     "exhaustive_note": "complete DFS (all interleavings of atomic-operation steps) for: 1-2 threads x ranges 0..4 x all 2^n truth "
                        "assignments x {range, blocks bs|n, multi}; 3 threads x ranges 0..2 (quick) / 0..3 (thorough); i32/u8 cursor "
@@ -35,6 +59,9 @@ SPEC = {
     "assumptions": ASSUME_COMMON + [
         "scheduler serializes threads at atomic operations (sequential consistency); weak-memory reorderings are only exercised by the TSan stage",
         "ranges whose end + num_threads*block_size overflows IntT are outside the stated quantifier and not generated",
-        "the default stderr progress printer is replaced by nullptr or a recording callback",
+        "stages c16-defprog0/N run the DEFAULT progress callback (argument omitted); there now() is a scripted monotone clock "
+        "(advances per usleep call and per query, never wraps) and the callback's stderr text goes to an in-memory stream; "
+        "the text itself is classified for coverage only (the statement does not speak about it); in all other stages the "
+        "callback is nullptr or a recording callback",
     ],
 }
